@@ -1,8 +1,72 @@
 import JokerVerif.Drive.Common
-/-! Driver handlers for C11 (to be filled in). -/
+import JokerVerif.Model.Mcmc
+/-! Driver handlers for C11: the MCMC model executed at `Float`, with a Kepler solver written here (an oracle
+of the harness, not part of the theorems: the theorems hold for every true-anomaly function). -/
 open Lean Drive
-namespace Drive
 
-def mcmcOps : List (String × H) := []
+namespace Drive
+open Mcmc
+
+def twoPiF : Float := 2 * 3.141592653589793
+
+/-- eccentric anomaly by safeguarded Newton iteration on `[-π, π]` -/
+def keplerE (M e : Float) : Float := Id.run do
+  let m := M - twoPiF * Float.round (M / twoPiF)
+  let mut lo : Float := -3.141592653589793
+  let mut hi : Float := 3.141592653589793
+  let mut E := if e < 0.8 then m else (if m < 0 then -3.141592653589793 / 2 else 3.141592653589793 / 2)
+  for _ in [0:80] do
+    let g := E - e * Float.sin E - m
+    if g > 0 then hi := E else lo := E
+    let step := g / (1 - e * Float.cos E)
+    let En := E - step
+    E := if En > lo && En < hi then En else (lo + hi) / 2
+  return E
+
+/-- true anomaly at mean anomaly `M` -/
+def trueAnomF (M e : Float) : Float :=
+  let E := keplerE M e
+  2 * Float.atan2 (Float.sqrt (1 + e) * Float.sin (E / 2)) (Float.sqrt (1 - e) * Float.cos (E / 2))
+
+def floatMcmcFn : Mcmc.Fn Float := ⟨Float.cos, Float.sin, Float.log, 3.141592653589793, trueAnomF⟩
+
+def parsePar (j : Json) : Except String (Par Float) := do
+  return { P := ← getFloat j "P", e := ← getFloat j "e", omega := ← getFloat j "omega", M0 := ← getFloat j "M0",
+           s := ← getFloat j "s", K := ← getFloat j "K", v := (← getFloats j "v").toList, dv := (← getFloats j "dv").toList }
+
+def parseUnits (j : Json) : Except String (Units Float) := do
+  return { cP := ← getFloat j "cP", cOmega := ← getFloat j "cOmega", cM0 := ← getFloat j "cM0", cS := ← getFloat j "cS",
+           cK := ← getFloat j "cK", cV := (← getFloats j "cV").toList, cDv := (← getFloats j "cDv").toList }
+
+def parseObs (j : Json) : Except String (Obs Float) := do
+  return { x := ← getFloat j "x", label := ← getNat j "label", y := ← getFloat j "y", sigma := ← getFloat j "sigma" }
+
+def mcmcRvOp : H := fun j => do
+  let p ← parsePar (← j.getObjVal? "par")
+  let u ← parseUnits (← j.getObjVal? "units")
+  let obs ← (← getArr j "obs").toList.mapM parseObs
+  let pi := toInternal u p
+  let F := floatMcmcFn
+  return Json.mkObj [
+    ("mcmc", jFloats (obs.map (mcmcRV F pi))),
+    ("sampler", jFloats (obs.map (samplerRV F pi))),
+    ("data", jNat (bitsOfFloat (dataTerm F pi (mcmcRV F) obs))),
+    ("dataSampler", jNat (bitsOfFloat (dataTerm F pi (samplerRV F) obs))),
+    ("internal", Json.mkObj [("P", jNat (bitsOfFloat pi.P)), ("K", jNat (bitsOfFloat pi.K)), ("s", jNat (bitsOfFloat pi.s)),
+                             ("v", jFloats pi.v), ("dv", jFloats pi.dv)])]
+
+def mcmcMedianOp : H := fun j => do
+  let ps ← getFloats j "P"
+  match medianIdx ps.toList with
+  | some i => return Json.mkObj [("idx", jNat i)]
+  | none => return Json.mkObj [("idx", Json.null)]
+
+def mcmcDiagOp : H := fun j => do
+  let d := diagnostics (← getFloat j "lnPrior") (← getFloat j "data")
+  return Json.mkObj [("logp", jNat (bitsOfFloat d.logp)), ("lnLikelihood", jNat (bitsOfFloat d.lnLikelihood)),
+                     ("lnPrior", jNat (bitsOfFloat d.lnPrior))]
+
+def mcmcOps : List (String × H) :=
+  [("mcmc.rv", mcmcRvOp), ("mcmc.median", mcmcMedianOp), ("mcmc.diag", mcmcDiagOp)]
 
 end Drive
